@@ -10,7 +10,7 @@ func vhC05Iter4() { vC05Iter(4) }
 func vC05Iter(n int) {
 	vUnwind(8)
 	bars := vBars4()
-	m := make(heapManager, 8)
+	m := newHeapManager(8)
 	go m.run()
 	for i := 0; i < n; i++ {
 		m.push(bars[i], false)
